@@ -6,12 +6,28 @@
 import Gts.Model.Sexp
 import Gts.Model.Repair
 import Gts.Spec.RepairGuard
+import Gts.Spec.RepairSortGuard
 namespace Gts
 
 def encRepairOutcome : RepairOutcome → String
   | .ok t => encList (t.map encFeature)
   | .panic => "PANIC"
   | .nilLoc => "NILLOC"
+
+def decLocs? : Sexp → Option (List Loc)
+  | .list ls => ls.mapM decLoc?
+  | _ => none
+
+/-- `Repair` with the recorded answers of `sort.Sort`: every class must come with a sorted
+permutation of its members (`BADSORT` otherwise — the real `sort.Sort` broke its promise, or the
+harness recorded something else); then `repairWith (assocSort …)`, a correct sort
+(`Gts.C12.recorded_sort_correct`). -/
+def repairSorted (t : Table) (sorted : List (List Loc)) (rev : Bool) : String :=
+  let tbl := Table.sortTable t sorted
+  if sorted.length == (Table.groups t).length && tbl.all (fun p => sortedPermB p.1 p.2) then
+    let cs := if rev then (Table.groups t).reverse else Table.groups t
+    encRepairOutcome (repairOrdWith (assocSort tbl) t cs)
+  else "BADSORT"
 
 def evalRepair (op : String) (args : List Sexp) : Option String :=
   match op, args with
@@ -25,6 +41,22 @@ def evalRepair (op : String) (args : List Sexp) : Option String :=
       pure (encBool (Table.plain t) ++ encBool (Table.noNil t))
   | "c12.k2", fs => do pure (encBool (Table.k2 (← fs.mapM decFeature?)))
   | "feat.classkey", [f] => do pure (encStr (classKey (← decFeature? f)))
+  | "feat.repair.sorted", [.list fs, .list ss] => do
+      -- `Repair` when `sort.Sort` answers, class by class (first-occurrence order), the recorded lists
+      let t ← fs.mapM decFeature?
+      let sorted ← ss.mapM decLocs?
+      pure (repairSorted t sorted false)
+  | "feat.repair.sorted.rev", [.list fs, .list ss] => do
+      let t ← fs.mapM decFeature?
+      let sorted ← ss.mapM decLocs?
+      pure (repairSorted t sorted true)
+  | "c12.k2.sorted", [.list fs, .list ss] => do
+      let t ← fs.mapM decFeature?
+      let sorted ← ss.mapM decLocs?
+      pure (encBool (Table.k2With (assocSort (Table.sortTable t sorted)) t))
+  | "c12.sortshape", fs => do
+      let t ← fs.mapM decFeature?
+      pure (encBool (Table.sortIndep t) ++ encBool (Table.tieFreeT t) ++ encBool (Table.bigClass t))
   | _, _ => none
 
 end Gts
